@@ -213,6 +213,10 @@ class Safe:
                     obs.append(f"({b} < {w})")
                 elif int(self.lit_val(r)) >= w:
                     obs.append("False")
+                if op == "<<" and not self.tr.bits:
+                    # not a trap but a condition of the translation: outside the bit / CRC / frame layer `<<` is rendered as the
+                    # unbounded shift, which is the machine's only if no bit leaves the word
+                    obs.append(f"({A} * 2 ^ {B} < 2^{w})")
         elif ty[0] == "int":
             w = ty[1]
             rng = lambda t: f"(-(2:Int)^{w-1} ≤ {t} ∧ {t} < (2:Int)^{w-1})"
